@@ -21,7 +21,13 @@ Definition dispatch3 {A} (c : N) (k40 k123 d : A) : A := match c with 40 => k40 
 Lemma dispatch3_eq {A} c (k40 k123 d : A) : dispatch3 c k40 k123 d = if c =? 40 then k40 else if c =? 123 then k123 else d.
 Proof. destruct c as [|p]; [reflexivity|]. do 7 (destruct p as [p|p|]; try reflexivity). Qed.
 
-Notation pv := (visit false nospec).
+Section Visitor.
+(** any visitor: with or without the string shortcut of ToStringVisitor, with any hook rendering special structs itself
+    (PrettyPrinter::printStruct) as long as a struct it takes over occupies at least one byte *)
+Variable sb : bool.
+Variable sp : bytes -> bytes -> bytes -> option (option (bytes * bytes)).
+Hypothesis Hsp : forall n t i txt r, sp n t i = Some (Some (txt, r)) -> (length r < length i)%nat.
+Notation pv := (visit sb sp).
 
 (** the named member loops of [singular] (the definition uses anonymous fixpoints) *)
 Fixpoint sg_tuple (rec : bytes -> option bool) (n : nat) (t : bytes) : option bool :=
@@ -40,6 +46,12 @@ Lemma visit_S f full c t1 l : pv (S f) full (c :: t1) l =
      | None => VErr VShort []
      | Some (h, r) =>
        let size := le_dec h in let (etag, _) := tag_pop t1 in
+       if sb && (match etag with [99] => true | _ => false end) then
+         match takeN size r with
+         | Some (chars, r') => VOk ([CSeqChars chars], r')
+         | None => VErr VShort []
+         end
+       else
        prepend [CSeqBegin size etag]
          (match (if 32 <? size then singular f full etag else Some false) with
           | None => VErr VRecursion []
@@ -67,7 +79,11 @@ Lemma visit_S f full c t1 l : pv (S f) full (c :: t1) l =
      let (intro, t0) := remove_prefix_before body 96 in
      let t := match t0 with [] => resolve_recursive_tag full intro | _ => t0 end in
      let name := drop 1 intro in
-     prepend [CStructBegin name t] (struct_loop (pv f full) (S (length t)) t l []))
+     match sp name t l with
+     | Some (Some (txt, r)) => VOk ([CSpecial txt], r)
+     | Some None => VErr VShort []
+     | None => prepend [CStructBegin name t] (struct_loop (pv f full) (S (length t)) t l [])
+     end)
     (let inner := drop_last (drop 1 (c :: t1)) in
      match inner with
      | [] => VErr VBadEnum []
@@ -151,7 +167,10 @@ Proof.
   rewrite visit_S, dispatch_eq in E.
   destruct (c =? 91).
   { destruct (take_n 4 l) as [[h r]|] eqn:E4; [|discriminate]. apply take_n_len in E4. cbv zeta in E.
-    destruct (tag_pop t1) as [etag rest]. apply prepend_ok in E. destruct E as (cs0 & E & _).
+    destruct (tag_pop t1) as [etag rest].
+    destruct (sb && match etag with [99] => true | _ => false end).
+    { destruct (takeN (le_dec h) r) as [[chars r']|] eqn:Et; [|discriminate]. inversion E; subst. apply takeN_app in Et. destruct Et as [-> _]. rewrite app_length in E4. lia. }
+    apply prepend_ok in E. destruct E as (cs0 & E & _).
     destruct (if 32 <? le_dec h then singular f full etag else Some false) as [[|]|]; [| |discriminate].
     - destruct (pv f full etag r) as [[cs1 l1]|er p] eqn:E1; [|discriminate]. inversion E; subst. apply IH in E1. lia.
     - rewrite VisitProofs.seq_loopN_eq in E. apply (seq_loop_mono _ (IH)) in E. lia. }
@@ -163,7 +182,9 @@ Proof.
     destruct (is_null_tag opt); [inversion E; subst; lia|].
     destruct (pv f full opt r) as [[cs1 l1]|er p] eqn:E2; [|discriminate]. inversion E; subst. apply IH in E2. lia. }
   destruct (c =? 123).
-  { cbv zeta in E. destruct (remove_prefix_before _ 96) as [intro t0]. apply prepend_ok in E. destruct E as (cs0 & E & _).
+  { cbv zeta in E. destruct (remove_prefix_before _ 96) as [intro t0].
+    destruct (sp _ _ l) as [[[txt r]|]|] eqn:Es; [inversion E; subst; apply Hsp in Es; lia|discriminate|].
+    apply prepend_ok in E. destruct E as (cs0 & E & _).
     now apply (struct_loop_mono _ IH) in E. }
   destruct (c =? 47).
   { cbv zeta in E. destruct (drop_last _) as [|u inner]; [discriminate|]. destruct (arith_of_letter u) as [a|]; [|discriminate].
@@ -275,7 +296,10 @@ Proof.
   rewrite visit_S, dispatch_eq in E. cbn [noback] in Hn.
   destruct (N.eqb_spec c 91) as [->|N91].
   { destruct (take_n 4 l) as [[h r]|] eqn:E4; [|discriminate]. apply take_n_len in E4. cbv zeta in E.
-    destruct (tag_pop t1) as [etag rest]. apply prepend_ok in E. destruct E as (cs0 & E & _).
+    destruct (tag_pop t1) as [etag rest].
+    destruct (sb && match etag with [99] => true | _ => false end).
+    { destruct (takeN (le_dec h) r) as [[chars r']|] eqn:Et; [|discriminate]. inversion E; subst. apply takeN_app in Et. destruct Et as [-> _]. rewrite app_length in E4. lia. }
+    apply prepend_ok in E. destruct E as (cs0 & E & _).
     destruct (if 32 <? le_dec h then singular f full etag else Some false) as [[|]|]; [| |discriminate].
     - destruct (pv f full etag r) as [[cs1 l1]|er p] eqn:E1; [|discriminate]. inversion E; subst. apply visit_mono in E1. lia.
     - rewrite seq_loopN_eq in E. apply (seq_loop_mono _ (visit_mono full f)) in E. lia. }
@@ -290,6 +314,7 @@ Proof.
   destruct (N.eqb_spec c 123) as [->|N123].
   { cbn [orb] in Hn. rewrite singular_struct_gen in Hs. unfold drop_last in E. cbv zeta in E.
     destruct (remove_prefix_before (removelast (123 :: t1)) 96) as [intro t0].
+    destruct (sp _ _ l) as [[[txt r]|]|] eqn:Es; [inversion E; subst; apply Hsp in Es; lia|discriminate|].
     destruct t0 as [|c0 t0].
     - destruct (resolve_recursive_tag full intro); [|discriminate]. cbn in Hs. discriminate.
     - apply prepend_ok in E. destruct E as (cs0 & E & _). eapply struct_progress; eauto. }
@@ -427,6 +452,9 @@ Proof.
     pose proof (tag_pop_lengths t1) as HL. destruct (tag_pop t1) as [etag rest]. cbn [fst snd] in HL, Hn.
     assert (He : (length etag < T)%nat) by lia.
     pose proof (kb_step _ _ He) as Hk1. pose proof (Kb_mono (length etag) T ltac:(lia)) as Hk2.
+    destruct (sb && match etag with [99] => true | _ => false end).
+    { destruct (takeN (le_dec h) r) as [[chars r']|] eqn:Et; [|cbn; lia]. apply takeN_app in Et. destruct Et as [Er _].
+      cbn [good length]. rewrite E4, Er, app_length. nia. }
     destruct (32 <? le_dec h) eqn:E32.
     - destruct (singular f full etag) as [[|]|] eqn:Es.
       + pose proof (IH etag r Hn) as Hg. unfold good in Hg. destruct (pv f full etag r) as [[cs1 l1]|er p]; cbn [prepend good app length].
@@ -470,9 +498,15 @@ Proof.
     pose proof (removelast_len_lt 123 t1) as Hb. unfold remove_prefix_before in *.
     set (body := removelast (123 :: t1)) in *. set (k := find_pos body 96) in *.
     assert (Ht0 : (length (skipn k body) <= length t1)%nat) by (rewrite skipn_length; lia).
+    assert (Hspecial : forall nm tt X, good T l (match sp nm tt l with Some (Some (txt, r)) => VOk ([CSpecial txt], r) | Some None => VErr VShort [] | None => X end) <-> (sp nm tt l = None -> good T l X) \/ sp nm tt l <> None).
+    { intros nm tt X. destruct (sp nm tt l) as [[[txt r]|]|] eqn:Es; split; intros; auto; try (right; discriminate).
+      - cbn [good length]. apply Hsp in Es. nia.
+      - cbn. lia.
+      - destruct H as [H|H]; [now apply H|congruence]. }
     destruct (skipn k body) as [|c0 t0] eqn:Et0.
-    - destruct (resolve_recursive_tag full (firstn k body)); [|discriminate]. cbn. lia.
-    - pose proof (struct_bound (pv f full) (noback full f) IH (Kb T) (S (length (c0 :: t0))) (c0 :: t0) l [] Hn (Kb_mono (length (c0 :: t0)) T ltac:(lia))) as Hg.
+    - destruct (resolve_recursive_tag full (firstn k body)); [|discriminate]. apply Hspecial. destruct (sp (drop 1 (firstn k body)) [] l) eqn:Es; [right; discriminate|left; intros _]. cbn. lia.
+    - apply Hspecial. destruct (sp (drop 1 (firstn k body)) (c0 :: t0) l) eqn:Es; [right; discriminate|left; intros _].
+      pose proof (struct_bound (pv f full) (noback full f) IH (Kb T) (S (length (c0 :: t0))) (c0 :: t0) l [] Hn (Kb_mono (length (c0 :: t0)) T ltac:(lia))) as Hg.
       destruct (struct_loop _ _ _ l []) as [[cs1 l1]|er p]; cbn [prepend good app length] in *; lia. }
   destruct (c =? 47).
   { cbv zeta. destruct (drop_last _) as [|u inner]; [cbn; lia|]. destruct (arith_of_letter u) as [a|]; [|cbn; lia].
@@ -491,6 +525,16 @@ Proof.
   intros H. pose proof (visit_bound full f tag input H) as Hg. unfold good, callbacks_of, Kb in *.
   destruct (pv f full tag input) as [[cs l']|e p]; [destruct Hg as [_ Hg]|]; lia.
 Qed.
+
+End Visitor.
+Import VisitProofs.
+
+Lemma nospec_consumes : forall n t i txt r, nospec n t i = Some (Some (txt, r)) -> (length r < length i)%nat.
+Proof. discriminate. Qed.
+(** the plain visitor of mserialize *)
+Corollary callbacks_bounded_plain full f tag input : noback full f tag = true ->
+  (callbacks_of (visit false nospec f full tag input) <= 4 * length tag + 16 * length tag * length tag * length input)%nat.
+Proof. apply callbacks_bounded. exact nospec_consumes. Qed.
 
 (** the recorded amplification D6 is exactly a resolved back-reference; ordinary tags (here: a sequence of structs holding a string,
     an optional and a nested tuple; an enum; a recursive-free variant) satisfy [noback] *)
@@ -581,6 +625,7 @@ End Typed.
 
 (** hence: for every loggable type of the C06 universe whose empty structs are not shadowed by a definition in the complete tag, and for
     EVERY input (not only serialized values of the type), the callbacks are bounded *)
-Corollary callbacks_bounded_typed t input : ty_ok t = true -> empties (tag t) t ->
-  (callbacks_of (pv 2048 (tag t) (tag t) input) <= 4 * length (tag t) + 16 * length (tag t) * length (tag t) * length input)%nat.
-Proof. intros Hok He. apply callbacks_bounded. now apply noback_tag. Qed.
+Corollary callbacks_bounded_typed sb sp t input : (forall n t i txt r, sp n t i = Some (Some (txt, r)) -> (length r < length i)%nat) ->
+  ty_ok t = true -> empties (tag t) t ->
+  (callbacks_of (visit sb sp 2048 (tag t) (tag t) input) <= 4 * length (tag t) + 16 * length (tag t) * length (tag t) * length input)%nat.
+Proof. intros Hsp Hok He. apply callbacks_bounded; [exact Hsp|]. now apply noback_tag. Qed.
